@@ -26,3 +26,5 @@ PY
 export -f run1
 printf '%s\n' $ids | xargs -P $jobs -I{} bash -c "run1 {} $tier $tmp"
 cat $tmp/*.line | sort > $out; rm -rf $tmp; cat $out
+# the scratch worktrees have unique paths, so their build-cache entries are never reused: drop them
+rm -rf /tmp/mutrun-gocache
